@@ -154,35 +154,50 @@ def located_error(
             )
         )
 
-        # TODO: this is ugly AF... we should refactor it :D
-        is_partial = isinstance(graphql_error.coerce_value, partial)
-        if (
-            path
-            and (not hasattr(graphql_error, "path") or not graphql_error.path)
-            and (
-                not is_partial
-                or "path" not in graphql_error.coerce_value.keywords
-            )
-        ):
-            graphql_error.coerce_value = partial(
-                graphql_error.coerce_value, path=path
-            )
-            is_partial = True
+        # The exception raised by the application is annotated in place with
+        # its path / locations; when it does not let itself be annotated
+        # (frozen dataclass, raising __setattr__ or properties...) it is
+        # reported through a library error built from it instead
+        try:
+            # TODO: this is ugly AF... we should refactor it :D
+            is_partial = isinstance(graphql_error.coerce_value, partial)
+            if (
+                path
+                and (
+                    not hasattr(graphql_error, "path")
+                    or not graphql_error.path
+                )
+                and (
+                    not is_partial
+                    or "path" not in graphql_error.coerce_value.keywords
+                )
+            ):
+                graphql_error.coerce_value = partial(
+                    graphql_error.coerce_value, path=path
+                )
+                is_partial = True
 
-        if (
-            nodes
-            and (
-                not hasattr(graphql_error, "locations")
-                or not graphql_error.locations
-            )
-            and (
-                not is_partial
-                or "locations" not in graphql_error.coerce_value.keywords
-            )
-        ):
-            graphql_error.coerce_value = partial(
-                graphql_error.coerce_value,
-                locations=[node.location for node in nodes],
+            if (
+                nodes
+                and (
+                    not hasattr(graphql_error, "locations")
+                    or not graphql_error.locations
+                )
+                and (
+                    not is_partial
+                    or "locations" not in graphql_error.coerce_value.keywords
+                )
+            ):
+                graphql_error.coerce_value = partial(
+                    graphql_error.coerce_value,
+                    locations=[node.location for node in nodes],
+                )
+        except Exception:  # pylint: disable=broad-except
+            graphql_error = graphql_error_from_nodes(
+                _exception_message(exception),
+                nodes=nodes,
+                path=path,
+                original_error=exception,
             )
 
         computed_exceptions.append(graphql_error)
